@@ -208,8 +208,9 @@ func TestVerifC06(t *testing.T) {
 				if tf == 6 && di%20 != 0 {
 					continue
 				}
-				if (di+tf)%2 == 0 || tf == 3 {
-					cases = append(cases, cdesc{(di + tf) % 2, di, tf})
+				cases = append(cases, cdesc{(di + tf) % 2, di, tf})
+				if tf == 3 || tf == 0 {
+					cases = append(cases, cdesc{(di + tf + 1) % 2, di, tf})
 				}
 			}
 		}
